@@ -305,6 +305,19 @@ func checkBlock(n *chainkit.Node, b *types.Block, procs int) (ok bool, why strin
 	if !ok {
 		why = logReason()
 	}
+	if dbg != nil {
+		logMu.Lock()
+		seen := map[string]int{}
+		for _, r := range logBuf {
+			if r.Lvl <= log.LvlError {
+				seen[r.Msg+" err="+r.Err]++
+			}
+		}
+		logMu.Unlock()
+		for k, v := range seen {
+			dbg("      logged at error level x%d: %s", v, short(k))
+		}
+	}
 	return
 }
 
